@@ -15,8 +15,9 @@ Section Oracle.
   Variables s t : node.
   Variable kept : list PathEnc.edge.        (* the edges whose flow has to be explained *)
   Variable f : PathEnc.edge -> nat.
+  Variable capn : PathEnc.edge -> nat.      (* how often a walk may pass an edge that is not kept (1 for source/sink edges) *)
 
-  Definition cap0 (e : PathEnc.edge) : nat := if mem_edge e kept then f e else 1.
+  Definition cap0 (e : PathEnc.edge) : nat := if mem_edge e kept then f e else capn e.
   Definition dec (cap : PathEnc.edge -> nat) (e : PathEnc.edge) : PathEnc.edge -> nat :=
     fun x => if edge_eqb x e then cap x - 1 else cap x.
   Definition tot (cap : PathEnc.edge -> nat) : nat := fold_right (fun e a => cap e + a) 0 E.
@@ -124,13 +125,8 @@ Section Oracle.
   Definition st_walkn (p : list node) : Prop := hd_error p = Some s /\ last p s = t /\ incl (pairs p) E.
   (* an integer walk decomposition: walks with positive integer weights that explain f on the kept edges *)
   Definition iwd (l : list (list node * nat)) : Prop :=
-    (forall c, In c l -> st_walkn (fst c) /\ 1 <= snd c) /\ forall e, In e kept -> total l e = f e.
-
-  Hypothesis Hkept : incl kept E.
-  (* the edges that are not kept are source or sink edges; nothing enters the source, nothing leaves the sink *)
-  Hypothesis Hst : forall e, In e E -> ~ In e kept -> fst e = s \/ snd e = t.
-  Hypothesis Hs : forall e, In e E -> snd e <> s.
-  Hypothesis Ht : forall e, In e E -> fst e <> t.
+    (forall c, In c l -> st_walkn (fst c) /\ 1 <= snd c /\ forall e, In e E -> ~ In e kept -> count_e e (pairs (fst c)) <= capn e) /\
+    forall e, In e kept -> total l e = f e.
 
   Lemma max_ge_gen (l : list PathEnc.edge) e : In e l -> f e <= fold_right (fun e a => Nat.max (f e) a) 0 l.
   Proof. induction l as [|x l IH]; intros H; [destruct H|]. cbn [fold_right]. destruct H as [->|H]; [lia|]. specialize (IH H). lia. Qed.
@@ -138,23 +134,23 @@ Section Oracle.
   Proof. apply max_ge_gen. Qed.
   Lemma contrib_le_total c e : forall l, In c l -> contrib c e <= total l e.
   Proof. induction l as [|x l IH]; intros H; [destruct H|]. cbn [total]. destruct H as [->|H]; [lia|]. specialize (IH H). lia. Qed.
-  Lemma conn_into a b : conn E a b -> a = b \/ exists x, In (x, b) E.
+  Lemma walks_from_caps : forall fuel cap v P, In P (walks_from cap fuel v) -> forall e, count_e e (pairs P) <= cap e.
   Proof.
-    intros (m & Hm & Lm). destruct m as [|y r]; [left; exact Lm|right]. destruct (walk_last_edge r a y) as (x & Hx).
-    exists x. apply Hm. rewrite <- Lm. rewrite (last_cons_default (y :: r) a a). rewrite last_cons_default in Hx |- *. exact Hx.
+    induction fuel as [|n IH]; intros cap v P H e; [destruct H|]. cbn [walks_from] in H. apply in_app_or in H. destruct H as [H|H].
+    - destruct (v =? t)%N; [|destruct H]. destruct H as [<-|[]]. cbn. lia.
+    - apply in_flat_map in H. destruct H as (e0 & He0 & H). destruct ((fst e0 =? v)%N && (0 <? cap e0)) eqn:Q; [|destruct H].
+      apply andb_true_iff in Q. destruct Q as [Q1 Q2]. apply N.eqb_eq in Q1. apply Nat.ltb_lt in Q2. apply in_map_iff in H. destruct H as (P' & <- & HP').
+      pose proof (IH _ _ _ HP' e) as Hc. destruct (walks_from_sound n (dec cap e0) (snd e0) P' HP') as (Hh & _ & _).
+      destruct P' as [|u m]; [discriminate|]. cbn in Hh. injection Hh as ->. rewrite pairs_cons2. cbn [count_e]. unfold dec in Hc.
+      destruct e0 as [a b]. cbn [fst snd] in *. subst a. destruct (eqe (v, b) e) eqn:Q3.
+      + apply eqe_true in Q3. subst e. rewrite (proj2 (edge_eqb_eq _ _) eq_refl) in Hc. lia.
+      + destruct (edge_eqb e (v, b)) eqn:Q4; [apply edge_eqb_eq in Q4; subst e; rewrite (proj2 (eqe_true _ _) eq_refl) in Q3; discriminate|lia].
   Qed.
-  Lemma st_edge_once p e : st_walkn p -> In e E -> ~ In e kept -> count_e e (pairs p) <= 1.
-  Proof.
-    intros (_ & _ & Hi) He Hn. destruct (Nat.le_gt_cases (count_e e (pairs p)) 1) as [H|H]; [exact H|exfalso].
-    pose proof (WalkWidthCaps.twice_closes E e p Hi H) as Hc. destruct (Hst e He Hn) as [Es|Et].
-    - destruct (conn_into _ _ Hc) as [X|(x & Hx)]; [apply (Hs e He); congruence|]. rewrite Es in Hx. exact (Hs (x, s) Hx eq_refl).
-    - rewrite Et in Hc. destruct (WalkWidthCaps.conn_first_edge E t (fst e) Hc) as [X|(y & Hy)]; [exact (Ht e He (eq_sym X))|exact (Ht (t, y) Hy eq_refl)].
-  Qed.
-
-  Lemma cands_sound c : In c cands -> st_walkn (fst c) /\ 1 <= snd c.
+  Lemma cands_sound c : In c cands -> st_walkn (fst c) /\ 1 <= snd c /\ forall e, In e E -> ~ In e kept -> count_e e (pairs (fst c)) <= capn e.
   Proof.
     unfold cands. intros H. apply in_flat_map in H. destruct H as (p & Hp & H). apply in_map_iff in H. destruct H as (w & <- & Hw).
-    apply in_seq in Hw. cbn [fst snd]. split; [|lia]. exact (walks_from_sound _ _ _ _ Hp).
+    apply in_seq in Hw. cbn [fst snd]. split; [exact (walks_from_sound _ _ _ _ Hp)|]. split; [lia|].
+    intros e _ Hn. pose proof (walks_from_caps _ _ _ _ Hp e) as Hc. unfold cap0 in Hc. destruct (mem_edge e kept) eqn:M; [apply mem_edge_In in M; contradiction|exact Hc].
   Qed.
   Lemma in_cands p w : st_walkn p -> (forall e, count_e e (pairs p) <= cap0 e) -> 1 <= w <= maxf -> In (p, w) cands.
   Proof.
@@ -167,13 +163,13 @@ Section Oracle.
     intros [Hw Hf]. set (useful := fun c : list node * nat => existsb (fun e => 0 <? count_e e (pairs (fst c))) kept).
     exists (filter useful l). split; [|split].
     - clear. induction l as [|x l IH]; cbn [filter length]; [lia|]. destruct (useful x); cbn [length]; lia.
-    - intros [p w] Hc. apply filter_In in Hc. destruct Hc as [Hc Hu]. destruct (Hw _ Hc) as [Hp Hw1]. cbn [fst snd] in *.
+    - intros [p w] Hc. apply filter_In in Hc. destruct Hc as [Hc Hu]. destruct (Hw _ Hc) as (Hp & Hw1 & Hcapn). cbn [fst snd] in *.
       unfold useful in Hu. apply existsb_exists in Hu. destruct Hu as (e0 & He0 & Q). apply Nat.ltb_lt in Q. cbn [fst] in Q.
       apply in_cands; [exact Hp| |].
       + intros e. unfold cap0. destruct (mem_edge e kept) eqn:M.
         * apply mem_edge_In in M. pose proof (contrib_le_total (p, w) e l Hc) as H. rewrite (Hf e M) in H. unfold contrib in H. cbn [fst snd] in H. nia.
         * destruct (in_dec DomSpec.edge_dec e E) as [HeE|HnE].
-          -- apply (st_edge_once p e Hp HeE). intros X. apply mem_edge_In in X. congruence.
+          -- apply (Hcapn e HeE). intros X. apply mem_edge_In in X. congruence.
           -- rewrite WalkWidthCaps.count_e_notin; [lia|]. intros X. apply HnE. apply (proj2 (proj2 Hp)). exact X.
       + split; [exact Hw1|]. pose proof (contrib_le_total (p, w) e0 l Hc) as H. rewrite (Hf e0 He0) in H. unfold contrib in H. cbn [fst snd] in H.
         pose proof (maxf_ge e0 He0). nia.
@@ -206,37 +202,93 @@ Section Oracle.
   Qed.
 End Oracle.
 
-(* ---- executable form: the kept edges are the edges that are neither source nor sink edges (no user ignore list), the flow an
-   association list ---- *)
-Definition kept_of (E : list PathEnc.edge) (s t : node) : list PathEnc.edge :=
-  filter (fun e => negb ((fst e =? s)%N || (snd e =? t)%N)) E.
+(* ---- the s-t graph without a user ignore list: the edges that are not kept are source or sink edges, which every walk passes at most once ---- *)
+Definition iwd0 (E : list PathEnc.edge) (s t : node) (kept : list PathEnc.edge) (f : PathEnc.edge -> nat) (l : list (list node * nat)) : Prop :=
+  (forall c, In c l -> st_walkn E s t (fst c) /\ 1 <= snd c) /\ forall e, In e kept -> total l e = f e.
+
+Section StEdges.
+  Variable E : list PathEnc.edge.
+  Variables s t : node.
+  Variable kept : list PathEnc.edge.
+  Hypothesis Hst : forall e, In e E -> ~ In e kept -> fst e = s \/ snd e = t.
+  Hypothesis Hs : forall e, In e E -> snd e <> s.
+  Hypothesis Ht : forall e, In e E -> fst e <> t.
+  Lemma conn_into a b : conn E a b -> a = b \/ exists x, In (x, b) E.
+  Proof.
+    intros (m & Hm & Lm). destruct m as [|y r]; [left; exact Lm|right]. destruct (walk_last_edge r a y) as (x & Hx).
+    exists x. apply Hm. rewrite <- Lm. rewrite (last_cons_default (y :: r) a a). rewrite last_cons_default in Hx |- *. exact Hx.
+  Qed.
+  Lemma st_edge_once p e : st_walkn E s t p -> In e E -> ~ In e kept -> count_e e (pairs p) <= 1.
+  Proof.
+    intros (_ & _ & Hi) He Hn. destruct (Nat.le_gt_cases (count_e e (pairs p)) 1) as [H|H]; [exact H|exfalso].
+    pose proof (WalkWidthCaps.twice_closes E e p Hi H) as Hc. destruct (Hst e He Hn) as [Es|Et].
+    - destruct (conn_into _ _ Hc) as [X|(x & Hx)]; [apply (Hs e He); congruence|]. rewrite Es in Hx. exact (Hs (x, s) Hx eq_refl).
+    - rewrite Et in Hc. destruct (WalkWidthCaps.conn_first_edge E t (fst e) Hc) as [X|(y & Hy)]; [exact (Ht e He (eq_sym X))|exact (Ht (t, y) Hy eq_refl)].
+  Qed.
+  Lemma iwd0_iff f l : iwd E s t kept f (fun _ => 1) l <-> iwd0 E s t kept f l.
+  Proof.
+    unfold iwd, iwd0. split; intros [H1 H2]; (split; [|exact H2]); intros c Hc; destruct (H1 c Hc) as (A & B); [tauto|].
+    split; [exact A|]. split; [exact B|]. intros e He Hn. exact (st_edge_once (fst c) e A He Hn).
+  Qed.
+End StEdges.
+
+(* ---- executable forms ---- *)
+Definition is_st (s t : node) (e : PathEnc.edge) : bool := (fst e =? s)%N || (snd e =? t)%N.
+Definition kept_of (E : list PathEnc.edge) (s t : node) : list PathEnc.edge := filter (fun e => negb (is_st s t e)) E.
 Definition fnat (fl : list (PathEnc.edge * nat)) (e : PathEnc.edge) : nat :=
   match find (fun x => edge_eqb (fst x) e) fl with Some x => snd x | None => 0 end.
 Definition wfd_premises (E : list PathEnc.edge) (s t : node) : bool :=
   forallb (fun e => negb (snd e =? s)%N && negb (fst e =? t)%N) E.
+(* no user ignore list *)
 Definition min_wfd_model (E : list PathEnc.edge) (s t : node) (fl : list (PathEnc.edge * nat)) (kmax : nat) : option nat :=
-  if wfd_premises E s t then min_wfd E s t (kept_of E s t) (fnat fl) kmax else None.
+  if wfd_premises E s t then min_wfd E s t (kept_of E s t) (fnat fl) (fun _ => 1) kmax else None.
+(* with a user ignore list: the ignored edges may be passed up to the capacity the model gives them (capl; source/sink edges once) *)
+Definition kept_ign (E : list PathEnc.edge) (s t : node) (ign : list PathEnc.edge) : list PathEnc.edge :=
+  filter (fun e => negb (is_st s t e) && negb (mem_edge e ign)) E.
+Definition capn_ign (s t : node) (capl : list (PathEnc.edge * nat)) (e : PathEnc.edge) : nat := if is_st s t e then 1 else fnat capl e.
+Definition min_wfd_model_ign (E : list PathEnc.edge) (s t : node) (ign : list PathEnc.edge) (capl fl : list (PathEnc.edge * nat)) (kmax : nat)
+  : option nat := min_wfd E s t (kept_ign E s t ign) (fnat fl) (capn_ign s t capl) kmax.
 
 Theorem min_wfd_model_correct E s t fl kmax : wfd_premises E s t = true ->
   let kept := kept_of E s t in let f := fnat fl in
   match min_wfd_model E s t fl kmax with
-  | Some k => k <= kmax /\ (exists l, iwd E s t kept f l /\ length l = k) /\ (forall l, iwd E s t kept f l -> k <= length l)
-  | None => forall l, iwd E s t kept f l -> kmax < length l
+  | Some k => k <= kmax /\ (exists l, iwd0 E s t kept f l /\ length l = k) /\ (forall l, iwd0 E s t kept f l -> k <= length l)
+  | None => forall l, iwd0 E s t kept f l -> kmax < length l
   end.
 Proof.
   intros Hp kept f. subst kept f. unfold min_wfd_model. rewrite Hp. unfold wfd_premises in Hp. rewrite forallb_forall in Hp.
-  apply (min_wfd_correct E s t (kept_of E s t) (fnat fl)); unfold kept_of.
-  - intros e He Hn. destruct ((fst e =? s)%N || (snd e =? t)%N) eqn:Q.
-    + apply orb_true_iff in Q. destruct Q as [Q|Q]; apply N.eqb_eq in Q; auto.
-    + exfalso. apply Hn. apply filter_In. split; [exact He|]. rewrite Q. reflexivity.
-  - intros e He. specialize (Hp e He). apply andb_true_iff in Hp. destruct Hp as [Q _]. apply negb_true_iff, N.eqb_neq in Q. exact Q.
-  - intros e He. specialize (Hp e He). apply andb_true_iff in Hp. destruct Hp as [_ Q]. apply negb_true_iff, N.eqb_neq in Q. exact Q.
+  assert (Hiff : forall l, iwd E s t (kept_of E s t) (fnat fl) (fun _ => 1) l <-> iwd0 E s t (kept_of E s t) (fnat fl) l).
+  { intros l. apply iwd0_iff.
+    - intros e He Hn. unfold kept_of in Hn. destruct (is_st s t e) eqn:Q.
+      + unfold is_st in Q. apply orb_true_iff in Q. destruct Q as [Q|Q]; apply N.eqb_eq in Q; auto.
+      + exfalso. apply Hn. apply filter_In. split; [exact He|]. rewrite Q. reflexivity.
+    - intros e He. specialize (Hp e He). apply andb_true_iff in Hp. destruct Hp as [Q _]. apply negb_true_iff, N.eqb_neq in Q. exact Q.
+    - intros e He. specialize (Hp e He). apply andb_true_iff in Hp. destruct Hp as [_ Q]. apply negb_true_iff, N.eqb_neq in Q. exact Q. }
+  pose proof (min_wfd_correct E s t (kept_of E s t) (fnat fl) (fun _ => 1) kmax) as H.
+  destruct (min_wfd E s t (kept_of E s t) (fnat fl) (fun _ => 1) kmax) as [k|].
+  - destruct H as (H1 & (l & Hl & Hlen) & H3). split; [exact H1|]. split; [exists l; split; [apply Hiff; exact Hl|exact Hlen]|].
+    intros l' Hl'. apply H3. apply Hiff. exact Hl'.
+  - intros l Hl. apply H. apply Hiff. exact Hl.
 Qed.
 
+(* with an ignore list: exact for the decompositions whose walks pass every ignored edge at most as often as the model's capacity allows
+   (the "within caps" reading of the LP theorems) and every source/sink edge at most once *)
+Theorem min_wfd_model_ign_correct E s t ign capl fl kmax :
+  let kept := kept_ign E s t ign in let f := fnat fl in let capn := capn_ign s t capl in
+  match min_wfd_model_ign E s t ign capl fl kmax with
+  | Some k => k <= kmax /\ (exists l, iwd E s t kept f capn l /\ length l = k) /\ (forall l, iwd E s t kept f capn l -> k <= length l)
+  | None => forall l, iwd E s t kept f capn l -> kmax < length l
+  end.
+Proof. cbv zeta. unfold min_wfd_model_ign. apply min_wfd_correct. Qed.
+
 (* non-vacuity: the self-loop graph 1 -> 0, 0 -> 0, 0 -> 2 (source 1, sink 2) with flow 2 on the loop: one walk of weight 1 that takes the
-   loop twice explains it; with flow 1 on the loop and ... *)
+   loop twice explains it; the zero flow needs no walk; with the loop IGNORED (capacity 2) and nothing else to explain, no walk either *)
 Example loop_oracle :
   min_wfd_model [(0, 0); (1, 0); (0, 2)]%N 1%N 2%N [((0, 0)%N, 2)] 3 = Some 1 /\
   min_wfd_model [(0, 0); (1, 0); (0, 2)]%N 1%N 2%N [] 3 = Some 0 /\
   wfd_premises [(0, 0); (1, 0); (0, 2)]%N 1%N 2%N = true.
 Proof. vm_compute. auto. Qed.
+(* ignoring the loop of a graph with a second kept edge: 1 -> 0, 0 -> 0 (ignored), 0 -> 3, 3 -> 2 with flow 2 on (0,3): one walk of weight 2 *)
+Example loop_oracle_ign :
+  min_wfd_model_ign [(0, 0); (1, 0); (0, 3); (3, 2)]%N 1%N 2%N [(0, 0)%N] [((0, 0)%N, 2)] [((0, 3)%N, 2)] 3 = Some 1.
+Proof. vm_compute. reflexivity. Qed.
